@@ -75,7 +75,7 @@ def run(rep):
             if rv.violated != "NoLeak":
                 raise tlc.MachineryError(f"deviation {d} does not violate NoLeak in the model ({rv.violated}, {rv.error})")
             rep.note(f"Dev={{{d}}}: NoLeak violated in the model, as it must be")
-    cases, total_mut = mg.build_cases(base, rng, rep.tier)
+    cases, total_mut = mg.build_cases(base, rng, rep.tier, PID)
     cases = mg.witness_cases(findings) + cases
     rep.bounds.update(budgets=mg.BUDGETS[rep.tier], generated=len(base), mutants_total=total_mut, corpus=len(cases),
                       by_kind={k: sum(1 for c in cases if c["kind"] == k) for k in sorted({c["kind"] for c in cases})})
